@@ -8,6 +8,8 @@ import (
 	"sort"
 	"strings"
 
+	"golang.org/x/text/unicode/norm"
+
 	"github.com/zclconf/go-cty/cty"
 	"github.com/zclconf/go-cty/cty/convert"
 	"github.com/zclconf/go-cty/cty/function"
@@ -87,7 +89,11 @@ func apply(api string, args []cty.Value, x J) (cty.Value, error) {
 	}
 	switch api {
 	case "GetAttr":
-		return args[0].GetAttr(asS(x["name"])), nil
+		name := realName(asS(x["name"]))
+		if b, ok := x["nfd"].(bool); ok && b {
+			name = norm.NFD.String(name) // a decomposed spelling of the same name
+		}
+		return args[0].GetAttr(name), nil
 	case "Convert":
 		return convert.Convert(args[0], ConcretizeType(asJ(x["ty"])))
 	case "ListVal":
@@ -100,7 +106,7 @@ func apply(api string, args []cty.Value, x J) (cty.Value, error) {
 		m := map[string]cty.Value{}
 		keys := asL(x["keys"])
 		for i, k := range keys {
-			m[asS(k)] = args[i]
+			m[realName(asS(k))] = args[i]
 		}
 		if api == "MapVal" {
 			return cty.MapVal(m), nil
